@@ -232,6 +232,10 @@ pub fn scripts(tier: Tier) -> Vec<Script> {
         acts.push(tx(vec![OpSpec::put(&["b"], "k4", "z*290"), OpSpec::del(&["b"], "k0")]));
         out.push(Script { name, cfg: small(1024, 64), actions: acts });
     }
+    // the persisted free list walked across the capacity of one list page (123 ids at page size
+    // 1024), one delete per commit with a reopen in between: the commits around the exact fit are
+    // crashed at every point (the two bulk commits that build the state are not enumerated)
+    out.push(Script { name: "flb-free-list-across-one-page", cfg: small(1024, 64), actions: crate::optx::freelist_boundary_walk(1024, 2) });
     // page sizes that are not multiples of the 512-byte sector: two-entry leaves that end within the
     // last bytes of their second page, rewritten into freed pages next to live ones
     for (name, ps, a, b) in [("p5000-nodes-ending-near-a-page-end", 5000u64, "c*4900", "d*4900"), ("p1032-nodes-ending-near-a-page-end", 1032, "c*980", "d*980")] {
@@ -950,6 +954,22 @@ pub fn run(check: &mut Check) {
         }
         for (step, a) in sc.actions.iter().enumerate() {
             if !matches!(a, Action::Tx { commit: true, .. }) {
+                continue;
+            }
+            if sc.name.starts_with("flb-") && step < 2 {
+                continue;
+            }
+            if sc.name.starts_with("flb-") && tier == Tier::Quick {
+                // quick: every commit of the walk with each of its writes cut short once (the commit
+                // must succeed and leave a sound file); crash images for the commits around the exact fit
+                jobs.push(json!({"script": si, "step": step, "part": 0, "parts": 1, "shortok": true}).to_string());
+                meta.push((si, step, 970));
+                if (14..=22).contains(&step) {
+                    for part in 0..2 {
+                        jobs.push(json!({"script": si, "step": step, "part": part, "parts": 2}).to_string());
+                        meta.push((si, step, part));
+                    }
+                }
                 continue;
             }
             for part in 0..parts {
